@@ -26,6 +26,7 @@ import (
 	"math/rand"
 	"sort"
 	"strings"
+	"sync"
 )
 
 type c12Ref struct {
@@ -692,9 +693,34 @@ func c12SortedProbeIDs() []string {
 	return c12SortedKeys(m)
 }
 
+// c12ExecAll runs independent sequences (each on its own database and its own gorm handle) on a few workers
+func c12ExecAll(seqs []c12Seq) [][]c12Obs {
+	out := make([][]c12Obs, len(seqs))
+	var wg sync.WaitGroup
+	ch := make(chan int)
+	for w := 0; w < 4; w++ {
+		wg.Add(1)
+		go func() {
+			defer wg.Done()
+			for i := range ch {
+				out[i] = c12Exec(seqs[i])
+			}
+		}()
+	}
+	for i := range seqs {
+		ch <- i
+	}
+	close(ch)
+	wg.Wait()
+	return out
+}
+
 func c12E2E(r *Result, s c12Seq, suite string) {
 	c12Trace(s)
-	obs := c12Exec(s)
+	c12E2EObs(r, s, suite, c12Exec(s))
+}
+
+func c12E2EObs(r *Result, s c12Seq, suite string, obs []c12Obs) {
 	v, judged := c12Judge(s, obs)
 	r.H("e2e.judged_steps", fmt.Sprint(judged))
 	for _, o := range obs {
@@ -726,7 +752,7 @@ func c12KnownPattern(s c12Seq, v *c12Verdict) string {
 func init() {
 	register("C12", func(r *Result, rng *rand.Rand, tier string) {
 		defer c12Timed("e2e")()
-		n := 2000
+		n := 2500
 		if tier == "thorough" {
 			n = 55000
 		} else if tier == "search" {
@@ -738,14 +764,20 @@ func init() {
 		}
 		cfg := c12GenCfg{Kinds: kinds, Unscoped: 0.35, Slice: 0.4, MaxLen: 8, Avoid: 0.85}
 		c12RunProbes(r)
-		for i := 0; i < n && !expired(); i++ {
-			s := c12GenSeq(rng, cfg)
-			r.Case("e2e-sequences", canon(s), c12SeqNontrivial(s))
-			c12Hist(r, "e2e", s)
-			if i%97 == 0 {
-				r.Sample(map[string]interface{}{"suite": "e2e-sequences", "input": s})
+		for i := 0; i < n && !expired(); {
+			var batch []c12Seq
+			for ; i < n && len(batch) < 250; i++ {
+				s := c12GenSeq(rng, cfg)
+				r.Case("e2e-sequences", canon(s), c12SeqNontrivial(s))
+				c12Hist(r, "e2e", s)
+				if i%97 == 0 {
+					r.Sample(map[string]interface{}{"suite": "e2e-sequences", "input": s})
+				}
+				batch = append(batch, s)
 			}
-			c12E2E(r, s, "e2e-sequences")
+			for j, obs := range c12ExecAll(batch) {
+				c12E2EObs(r, batch[j], "e2e-sequences", obs)
+			}
 		}
 	})
 	replayers["C12/e2e-sequences"] = func(r *Result, input json.RawMessage) {
